@@ -7,6 +7,7 @@ import (
 	"math"
 	"math/rand"
 
+	"github.com/bitcoin-sv/block-headers-service/config"
 	"github.com/bitcoin-sv/block-headers-service/domains"
 	"github.com/bitcoin-sv/block-headers-service/verifharness/ev"
 	"github.com/bitcoin-sv/block-headers-service/verifharness/gen"
@@ -38,7 +39,7 @@ type resp struct {
 	Confirmations []respItem `json:"confirmations"`
 }
 
-var excesses = []int{0, 1, 6, 100, math.MaxInt32, 1 << 31, 1 << 40}
+var excesses = []int{-3, 0, 1, 6, 100, math.MaxInt32, 1 << 31, 1 << 40}
 
 // buildItems produces the request pool for a model state.
 func buildItems(rng *rand.Rand, m *refmodel.Model, excess int, limit int) []item {
@@ -95,6 +96,9 @@ func drawList(rng *rand.Rand, pool []item) []item {
 type env struct {
 	r  *ev.Run
 	st *rig.Stack
+	// one service stack per configured excess, built over the same store: the excess is given to the service
+	// constructors the way a start-up with that configuration does (not patched into a running service)
+	byExcess map[int]*rig.Stack
 }
 
 func sigOf(it item, want, got string) string {
@@ -113,7 +117,7 @@ func (e *env) verifyLists(caseID string, rng *rand.Rand, m *refmodel.Model, hist
 	}
 	for li := 0; li < lists; li++ {
 		excess := excesses[rng.Intn(len(excesses))]
-		e.st.Cfg.MerkleRoot.MaxBlockHeightExcess = excess
+		stx := e.byExcess[excess]
 		pool := buildItems(rng, m, excess, 60)
 		req := drawList(rng, pool)
 		want := make([]string, len(req))
@@ -125,7 +129,7 @@ func (e *env) verifyLists(caseID string, rng *rand.Rand, m *refmodel.Model, hist
 		}
 		// HTTP
 		b, _ := json.Marshal(req)
-		w := e.st.POST("/api/v1/chain/merkleroot/verify", b)
+		w := stx.POST("/api/v1/chain/merkleroot/verify", b)
 		if w.Code != 200 {
 			r.Violate("http-status", fmt.Sprintf("POST verify -> %d %s", w.Code, w.Body.String()), caseID, detail(req, map[string]any{"excess": excess}))
 			return false
@@ -163,7 +167,7 @@ func (e *env) verifyLists(caseID string, rng *rand.Rand, m *refmodel.Model, hist
 		for i, it := range req {
 			sreq[i] = domains.MerkleRootConfirmationRequestItem{MerkleRoot: it.Root, BlockHeight: it.Height}
 		}
-		sres, err := e.st.Svc.Merkleroots.GetMerkleRootsConfirmations(sreq)
+		sres, err := stx.Svc.Merkleroots.GetMerkleRootsConfirmations(sreq)
 		if err != nil || len(sres) != len(req) {
 			r.Violate("service-length", fmt.Sprintf("service returned %d verdicts (err %v) for %d items", len(sres), err, len(req)), caseID, detail(req, map[string]any{"excess": excess}))
 			return false
@@ -197,7 +201,11 @@ func body(r *ev.Run) {
 		return
 	}
 	defer st.Destroy()
-	e := &env{r: r, st: st}
+	e := &env{r: r, st: st, byExcess: map[int]*rig.Stack{}}
+	for _, x := range excesses {
+		x := x
+		e.byExcess[x] = st.Sibling(func(c *config.AppConfig) { c.MerkleRoot.MaxBlockHeightExcess = x })
+	}
 	nHist := r.Pick(200, 5000)
 	for i := 0; i < nHist; i++ {
 		caseID := fmt.Sprintf("h/%d", i)
